@@ -5,8 +5,12 @@ MODULES = [
     "c02_single",
     "c02_compound",
     "bounded_location",
+    "bounded_liftover",
+    "bounded_gene",
+    "c03_sequence",
     "c04_liftover",
     "c05_cds",
+    "c06_transcript",
     "c13_variants",
     "c14_bed",
     "c15_tables",
